@@ -43,9 +43,12 @@ class Walker:
         self.unknown: list[str] = []
         self.atom_dims: dict[Any, Any] = {}
         self.opaque: dict[Any, Any] = {}  # composite atoms for part B: node -> dim
+        self.viol_visible = 0  # violations outside composite atoms, i.e. visible to the numeric test (part B)
 
     def bad(self, path: str, msg: str) -> None:
         self.viol.append((path, msg))
+        if not any(seg in path for seg in (".expr", ".function", ".arg", ".var", ".limit", "IndexedSum", "IndexedProduct")):
+            self.viol_visible += 1
 
     def leaf_dim(self, d: Any) -> Any:
         from symplyphysics.core.dimensions.dimensions import AnyDimension
@@ -466,7 +469,7 @@ def judge_equation(module: str, attr: str, eq: Any, pairs: list[tuple[int, list[
         path, msg = w.viol[0]
         out.append((f"inhomogeneous:{site}", f"{site}: {msg} (at {path}); {len(w.viol)} node(s) flagged"
             + (f"; numeric scaling test agrees: {b_msgs[0]}" if b_bad else "")))
-        if b_ran and not b_bad:
+        if b_ran and not b_bad and w.viol_visible:
             raise AssertionError(f"C01 self-check: walker flags {site} ({msg}) but the numeric scaling test ran and is clean")
     elif b_bad:
         raise AssertionError(f"C01 self-check: numeric scaling test flags {site} ({b_msgs[0]}) but the walker is clean")
